@@ -20,14 +20,17 @@ RULE = ('Hypothesis-generated SimNet programs: worlds over {byte-stream, message
         'before the sender runs, so that many partial frames are in flight at once. Plus reconnect histories of one client '
         'object in which the previous connection ended half way through a fragmented request or channel element. Plus last '
         'words: an endpoint issues 1-4 fire-and-forget / metadata-push requests and closes at once, so that the bytes and the '
-        'end of the stream reach the peer together: every fire-and-forget written before close() reaches the handler once. Oracle (reference model = the program): for every interaction the sequence of payloads '
+        'end of the stream reach the peer together: every fire-and-forget written before close() reaches the handler once. Plus real endpoints joined through the '
+        'repository\'s websocket transports (3 client-side x 4 server-side kinds, the websocket an in-memory pair): 1-8 '
+        'request-response / fire-and-forget / metadata-push / stream requests of 0-400 bytes, sequential or concurrent, '
+        'fragmentation off or 64 / 80, answers computed from the requests. Oracle (reference model = the program): for every interaction the sequence of payloads '
         'observed at the peer callback equals the sequence handed in, byte for byte, exactly once, nothing foreign '
         '(every byte pattern encodes interaction, direction and index). Non-trivial = >= 2 interactions overlapping in '
         'time and (a payload of >= 2 fragments or a read buffer smaller than a frame); distinct = program hash.')
 ASSUMPTIONS = [
     'virtual-time single-threaded asyncio loop',
-    'real TransportTCP + asyncio.StreamReader / harness subclass of AbstractMessagingTransport; websocket, QUIC and '
-    'HTTP/3 glue is outside the harness',
+    'real TransportTCP + asyncio.StreamReader / harness subclass of AbstractMessagingTransport; the websocket transports '
+    'run with an in-memory stand-in for the websocket object; QUIC and HTTP/3 glue is outside the harness',
     'responder scripts are found through the stream id of the frame last yielded to the endpoint',
 ]
 
@@ -266,10 +269,85 @@ def last_words_prop(program):
     return vs
 
 
+@st.composite
+def glue_cases(draw):
+    """Real endpoints over the repository's own websocket transports (the websocket is an in-memory pair, harness/glue_e2e.py)"""
+    from harness import glue_e2e as G
+    size = st.one_of(st.sampled_from([0, 1, 49, 55, 58, 64, 110, 300]), st.integers(0, 400))
+    req = st.one_of(
+        st.tuples(st.just('rr'), size, size),
+        st.tuples(st.just('fnf'), size, size),
+        st.tuples(st.just('mp'), st.integers(1, 60), st.just(0)),
+        st.tuples(st.just('st'), st.integers(0, 6), st.integers(0, 60)),
+    )
+    return {'glue': True, 'client': draw(st.sampled_from(G.CLIENT_GLUES)), 'server': draw(st.sampled_from(G.SERVER_GLUES)),
+            'frag': draw(st.sampled_from([None, 64, 64, 80])), 'concurrent': draw(st.booleans()),
+            'reqs': [list(r) for r in draw(st.lists(req, min_size=1, max_size=8))]}
+
+
+_glue_stuck = []  # once a case has looped for its whole wall-clock allowance the following ones get a short one
+
+
+def glue_prop(case):
+    from harness import glue_e2e as G, vloop
+    vs = []
+    import signal
+    from harness.programs import _case_alarm
+    old_handler = signal.signal(signal.SIGALRM, _case_alarm)
+    signal.alarm(20 if not _glue_stuck else 3)
+    try:
+        out = vloop.run_case(G.run, case)
+    except common.CaseTimeout:
+        _glue_stuck.append(1)
+        return [common.viol('endpoint_does_not_terminate', '%s:glue:stuck' % PID, client=case['client'], server=case['server'],
+                            frag=case['frag'], reqs=case['reqs'][:4])]
+    except Exception as e:
+        is_repo, sig = common.repo_exception_sig(e)
+        if not is_repo:
+            raise
+        return [common.viol('endpoint_raised', '%s:glue:raised:%s' % (PID, type(e).__name__), client=case['client'],
+                            server=case['server'], exc=repr(e)[:200])]
+    finally:
+        signal.alarm(0)
+        signal.signal(signal.SIGALRM, old_handler)
+    res, fnf, mp = G.expected(case)
+    facts = dict(client=case['client'], server=case['server'], frag=case['frag'], concurrent=case['concurrent'])
+    for i, (got, want) in enumerate(zip(out['results'], res)):
+        if got != want:
+            kind = 'raised' if got and got[0] == 'raised' else 'differs'
+            vs.append(common.viol('response_corrupted' if kind == 'differs' else 'request_failed',
+                                  '%s:glue:%s:%s' % (PID, want[0], kind), index=i, request=case['reqs'][i],
+                                  got=(got[:3] if kind == 'raised' else [len(x) if isinstance(x, bytes) else x for x in got[:4]]), **facts))
+            break
+    if case['concurrent']:
+        # requests issued together travel on different streams: a fragmented one may be overtaken by a small one, so only
+        # "each exactly once" is owed, not the order across streams
+        out['fnf'], fnf = sorted(out['fnf']), sorted(fnf)
+        out['mp'], mp = sorted(out['mp']), sorted(mp)
+    if out['fnf'] != fnf:
+        vs.append(common.viol('request_lost' if len(out['fnf']) < len(fnf) else 'request_corrupted', '%s:glue:fnf' % PID,
+                              n_got=len(out['fnf']), n_want=len(fnf), **facts))
+    if out['mp'] != mp:
+        vs.append(common.viol('request_lost' if len(out['mp']) < len(mp) else 'request_corrupted', '%s:glue:mp' % PID,
+                              n_got=len(out['mp']), n_want=len(mp), **facts))
+    for e in out['errors']:
+        vs.append(common.viol('close_raised', '%s:glue:close_raised' % PID, what=e, **facts))
+    for e in out['loop_errors']:
+        vs.append(common.viol('unhandled_exception', '%s:glue:loop_error:%s' % (PID, e.get('type')), **facts))
+    big = any((r[0] in ('rr', 'fnf') and max(r[1], r[2]) > 60) or (r[0] == 'st' and r[2] * 4 > 60) for r in case['reqs'])
+    info['nt'] = len(case['reqs']) >= 2 and (case['concurrent'] or (big and case['frag']))
+    info['classes'] = ['part=glue', 'client=' + case['client'], 'server=' + case['server'],
+                       'fragmented=%s' % bool(big and case['frag'])]
+    return vs
+
+
 def shard(tier, seed, n, wide=False):
     common.use_repo()
     stats = common.Stats()
     known = common.Known(PID)
+    if wide == 'glue':
+        common.hyp_search(stats, known, glue_cases(), glue_prop, n, seed, classify=classify, shrink=True)
+        return stats
     if wide == 'last_words':
         common.hyp_search(stats, known, last_words(), last_words_prop, n, seed, classify=classify, shrink=True)
         return stats
@@ -299,6 +377,7 @@ def run(tier, seed):
     jobs += [dict(tier=tier, seed=s + 17, n=(32 if tier == 'quick' else 800) // 4, wide=True) for s in common.shard_seeds(seed, 4)]
     jobs += [dict(tier=tier, seed=s + 23, n=(160 if tier == 'quick' else 4000) // 4, wide='reconnect') for s in common.shard_seeds(seed, 4)]
     jobs += [dict(tier=tier, seed=s + 37, n=(320 if tier == 'quick' else 8000) // 4, wide='last_words') for s in common.shard_seeds(seed, 4)]
+    jobs += [dict(tier=tier, seed=s + 41, n=(400 if tier == 'quick' else 12000) // 8, wide='glue') for s in common.shard_seeds(seed, 8)]
     stats = common.run_shards(__name__, 'shard', jobs)
     return common.finish(PID, tier, seed, LEVEL, RULE, stats, t0, ASSUMPTIONS)
 
@@ -308,4 +387,6 @@ def replay(path):
     case = common.load_replay(path)
     if case.get('last_words'):
         return common.report_replay(PID, path, last_words_prop(case))
+    if case.get('glue'):
+        return common.report_replay(PID, path, glue_prop(case))
     return common.report_replay(PID, path, reconnect_prop(case) if 'reconnect' in case else prop(case))
